@@ -193,6 +193,37 @@ def rule_variant_callees(ctx, m):
                 ok = _is_dispatch(f, callee)
                 ctx.check(ok, 'R-VAR', f.file, fname, 'call %s' % callee,
                           'a squared-variant routine calls the euclidean variant %s outside the `if (settings->inner_dist == 1) return ...` dispatch' % callee, line)
+    # dimensionality: an n-D routine calls the n-D member of every callee family that has one (the 1-D member would treat the flattened
+    # buffer as one long univariate series: surplus items are padded with the last scalar instead of the last vector)
+    def split(nm):
+        e = nm.endswith('_euclidean') and nm not in ('ub_euclidean',)
+        base = nm[:-len('_euclidean')] if e else nm
+        return base, e
+    for fname, f in sorted(allf.items()):
+        fb, _ = split(fname)
+        if '_ndim' not in fb:
+            continue
+        for callee, line, args in f.calls:
+            if callee not in names:
+                continue
+            cb, ce = split(callee)
+            if '_ndim' in cb:
+                continue
+            nd = cb + '_ndim' + ('_euclidean' if ce else '')
+            if nd in names:
+                n += 1
+                # `if (ndim == 1) X(...) else X_ndim(...)` is the legitimate use of the univariate member
+                guarded = False
+                for st in walk_stmts(f.body):
+                    if st.k == 'if' and fmt(st.cond).replace('(', '').replace(')', '') == 'ndim == 1':
+                        if any(x[0] == 'call' and dotted(x[1]) == callee for t in walk_stmts(st.then) for e_ in stmt_exprs(t) for x in walk_expr(e_)) and \
+                                not any(x[0] == 'call' and dotted(x[1]) == callee for t in walk_stmts(st.els) for e_ in stmt_exprs(t) for x in walk_expr(e_)):
+                            guarded = True
+                if guarded:
+                    ctx.held('R-VAR', '%s -> %s under ndim == 1' % (fname, callee))
+                    continue
+                ctx.violation('R-VAR', f.file, fname, 'call %s (dimensionality)' % callee,
+                              'the n-dimensional routine %s calls the univariate %s although %s exists: the flattened buffers are then handled as 1-D series' % (fname, callee, nd), line)
     ctx.count('variant call sites', n)
     return n
 
@@ -571,6 +602,25 @@ def rule_ndim_stride(ctx, m, funcs):
                                 ctx.check(okm, 'R-STRIDE', f.file, fname, 'stride of %s' % fmt(x),
                                           'series are stored element-major (item i, dimension d at i*ndim + d): the subscript of %s is not (a multiple of ndim) + %s, '
                                           'so the components of different items are mixed' % (fmt(x), dv), s.line)
+    # the n-D point distance is computed by the same block in every region / tail loop of a function: the statement that consumes the accumulated
+    # `d` right after the dimension loop (sqrt for the euclidean variants, the max_step test / accumulation for the squared ones) is the same everywhere
+    for fname in funcs:
+        f = allf.get(fname)
+        nxt = []
+        for block, i, loop in _all_loops(f.body):
+            if loop.k == 'for' and loop.hi == ('var', 'ndim'):
+                follow = block[i + 1] if i + 1 < len(block) else None
+                txt = _serialise([follow])[0] if follow is not None else None
+                nxt.append((txt, loop.line))
+        if len(nxt) >= 2:
+            forms = sorted({t for t, _ in nxt if t is not None} | ({None} if any(t is None for t, _ in nxt) else set()), key=str)
+            odd = [ln for t, ln in nxt if [x for x, _ in nxt].count(t) == 1] if len(forms) > 1 else []
+            ctx.check(len(forms) == 1, 'R-STRIDE', f.file, fname, 'point-distance epilogue',
+                      'the %d copies of the n-D point-distance block in %s do not finish alike: %s (odd one at line %s) -- one region / tail loop uses a different distance than the others'
+                      % (len(nxt), fname, forms, odd[:1]), (odd or [f.line])[0])
+        if fname.endswith('_euclidean') and nxt:
+            ctx.check(all(t is not None and t.replace(' ', '') == 'd=sqrt(d)' for t, _ in nxt), 'R-STRIDE', f.file, fname, 'euclidean point distance',
+                      'in the euclidean variant the sum over the dimensions must be rooted (d = sqrt(d)) after every dimension loop; found %s' % sorted({str(t) for t, _ in nxt}), f.line)
     ctx.count('n-D subscripts', n)
     return n
 
